@@ -20,6 +20,7 @@ class Scen(CoreScenario):
         self.history = []
         self.count_run = {}
         self.count_locked = {}
+        self.count_mrun = {}
 
     def ident(self, pid):
         name = self.profile.transactions_and_methods[pid].name
@@ -46,6 +47,7 @@ class Scen(CoreScenario):
                 if caller not in parents or not obs.get(f"{caller}.run"):
                     raise Violation("profile-caller-mismatch",
                                     f"cycle {k}: method {b} recorded with caller {caller}; callers {sorted(parents)}, running {sorted(want)}")
+                self.count_mrun[b] = self.count_mrun.get(b, 0) + 1
                 self.hit("method_caller_recorded")
         for t, by in locked.items():
             if t not in a.bodies or a.bodies[t].kind != "T":
@@ -90,6 +92,186 @@ class Scen(CoreScenario):
                                 f"{t}: analyze_transactions run={st.run} locked={st.locked}, counted over cycles "
                                 f"run={self.count_run.get(t, 0)} locked={self.count_locked.get(t, 0)}")
         self.hit("statistics_compared")
+        self.compare_trees()
+        if len(self.history) % 3 == 0:  # a third of the runs (serialising a profile is slow)
+            self.roundtrip()
+
+    # ---- the other analyses: statistics equal the counts over the cycles of the profile itself ------------------
+    @staticmethod
+    def flatten(nodes_by_key, out, path=()):
+        """RunStatNode tree -> {path of ids: (run, locked, name)}."""
+        for i, node in nodes_by_key:
+            pth = path + (i,)
+            out[pth] = (node.stat.run, node.stat.locked, node.stat.name)
+            Scen.flatten(sorted(node.callers.items()), out, pth)
+        return out
+
+    def top_nodes(self, nodes, want_transactions):
+        """analyze_* return one node per transaction / method, without the id: matched by (unique) name."""
+        info = self.profile.transactions_and_methods
+        ids = {}
+        for i, inf in info.items():
+            if inf.is_transaction == want_transactions:
+                if inf.name in ids:
+                    return None
+                ids[inf.name] = i
+        out = []
+        for node in nodes:
+            if node.stat.name not in ids:
+                raise Violation("profile-statistics-mismatch", f"statistics for unknown name {node.stat.name}")
+            out.append((ids.pop(node.stat.name), node))
+        if ids:
+            raise Violation("profile-statistics-mismatch", f"no statistics for {sorted(ids)}")
+        return sorted(out, key=lambda e: e[0])
+
+    def compare_flat(self, what, got, want):
+        info = self.profile.transactions_and_methods
+        for pth in sorted(set(got) | set(want)):
+            names = "<-".join(self.ident(i) for i in pth) if what.startswith("analyze_methods") else \
+                "->".join(self.ident(i) for i in pth)
+            if any(info[i].is_transaction for i in pth[1:]) and what.startswith("analyze_transactions"):
+                # a transaction that lost against the running one is listed below it: not part of the statement
+                self.hit("locked_transaction_listed_under_winner")
+                continue
+            g, w = got.get(pth), want.get(pth)
+            if g is None or w is None:
+                raise Violation("profile-tree-mismatch",
+                                f"{what}: node {names} {'missing' if g is None else 'present'}, counting over the cycles of the "
+                                f"profile gives {w if w is not None else 'no such call chain'}")
+            if g[:2] != tuple(w):
+                raise Violation("profile-tree-mismatch",
+                                f"{what}: node {names} run={g[0]} locked={g[1]}, counted over the cycles of the profile "
+                                f"run={w[0]} locked={w[1]}")
+            if g[2] != info[pth[-1]].name:
+                raise Violation("profile-tree-mismatch", f"{what}: node {names} carries the name {g[2]}")
+
+    def analysis(self, fn, **kw):
+        """Statistics that cannot be computed from a profile the library recorded itself do not equal the counts."""
+        try:
+            return fn(**kw)
+        except Exception as e:
+            raise Violation("profile-analysis-raised", f"{fn.__name__}({', '.join(f'{k}={v}' for k, v in kw.items())}) raised "
+                            f"{type(e).__name__}: {str(e)[:200]}", exc=type(e).__name__)
+
+    def compare_trees(self):
+        prof = self.profile
+        info = prof.transactions_and_methods
+        limit = len(info) + 1
+
+        # -- analyze_transactions(recursive=True): below a running transaction, everything recorded with it (or with
+        #    something below it) as its caller in that cycle -- run if it ran, locked if it was locked
+        want = {}
+        for c in prof.cycles:
+            kids = {}
+            for x, par in c.running.items():
+                if par is not None:
+                    kids.setdefault(par, set()).add(x)
+            for x, par in c.locked.items():
+                kids.setdefault(par, set()).add(x)
+
+            def walk(pth):
+                x = pth[-1]
+                e = want.setdefault(pth, [0, 0])
+                if x in c.running:
+                    e[0] += 1
+                elif x in c.locked:
+                    e[1] += 1
+                if len(pth) < limit:
+                    for k in sorted(kids.get(x, ())):
+                        walk(pth + (k,))
+
+            for t in sorted(c.running):
+                if info[t].is_transaction:
+                    walk((t,))
+            for t in sorted(c.locked):
+                if info[t].is_transaction:
+                    want.setdefault((t,), [0, 0])[1] += 1
+        for i, inf in info.items():
+            if inf.is_transaction:
+                want.setdefault((i,), [0, 0])
+        tops = self.top_nodes(self.analysis(prof.analyze_transactions, recursive=True), True)
+        if tops is None:
+            self.hit("profile_names_not_unique")
+            return
+        got = self.flatten(tops, {})
+        self.compare_flat("analyze_transactions(recursive=True)", got, want)
+        for (i,) in [p for p in want if len(p) == 1]:
+            t = self.ident(i)
+            if t in self.a.bodies and (got[(i,)][0] != self.count_run.get(t, 0) or got[(i,)][1] != self.count_locked.get(t, 0)):
+                raise Violation("profile-statistics-mismatch",
+                                f"{t}: analyze_transactions(recursive=True) run={got[(i,)][0]} locked={got[(i,)][1]}, counted "
+                                f"over cycles run={self.count_run.get(t, 0)} locked={self.count_locked.get(t, 0)}")
+        self.hit("recursive_transaction_tree_compared")
+        if any(len(p) >= 2 and sum(want[p]) for p in want):
+            self.hit("recursive_tree_has_callees")
+        if any(len(p) >= 3 and sum(want[p]) for p in want):
+            self.hit("recursive_tree_depth_3")
+        if any(len(p) >= 2 and want[p][1] for p in want if not info[p[-1]].is_transaction):
+            self.hit("recursive_tree_locked_method")
+
+        # -- analyze_methods(): run = cycles the method is listed as running, locked = cycles it is listed as locked
+        methods = [i for i, inf in info.items() if not inf.is_transaction]
+        want = {(m,): [0, 0] for m in methods}
+        wantr = {(m,): [0, 0] for m in methods}
+        for c in prof.cycles:
+            for m in methods:
+                if m in c.running:
+                    want[(m,)][0] += 1
+                    pth, x = (m,), m
+                    while True:  # the chain of recorded callers, up to the transaction
+                        wantr.setdefault(pth, [0, 0])[0] += 1
+                        x = c.running.get(x)
+                        if x is None or len(pth) >= limit:
+                            break
+                        pth += (x,)
+                elif m in c.locked:
+                    want[(m,)][1] += 1
+                    pth, x = (m,), m
+                    while True:  # who used the locked method: every caller up the chain is counted as locked with it
+                        wantr.setdefault(pth, [0, 0])[1] += 1
+                        x = c.running.get(x) if x in c.running else c.locked.get(x)
+                        if x is None or len(pth) >= limit:
+                            break
+                        pth += (x,)
+        tops = self.top_nodes(self.analysis(prof.analyze_methods), False)
+        if tops is None:
+            self.hit("profile_names_not_unique")
+            return
+        got = self.flatten(tops, {})
+        self.compare_flat("analyze_methods()", got, want)
+        for (i,) in want:
+            b = self.ident(i)
+            if b in self.a.bodies and got[(i,)][0] != self.count_mrun.get(b, 0):
+                raise Violation("profile-statistics-mismatch",
+                                f"method {b}: analyze_methods run={got[(i,)][0]}, ran in {self.count_mrun.get(b, 0)} cycles")
+        self.hit("method_statistics_compared")
+        if any(v[1] for v in want.values()):
+            self.hit("method_statistics_locked_method")
+        tops = self.top_nodes(self.analysis(prof.analyze_methods, recursive=True), False)
+        got = self.flatten(tops, {})
+        self.compare_flat("analyze_methods(recursive=True)", got, wantr)
+        self.hit("recursive_method_tree_compared")
+        if any(len(p) >= 3 and sum(v) for p, v in wantr.items()):
+            self.hit("recursive_method_tree_depth_3")
+
+    def roundtrip(self):
+        """Profile.encode / Profile.decode: the statement says nothing about files -- counted, not judged."""
+        import os
+        import tempfile
+        from transactron.profiler import Profile
+
+        path = os.path.join(tempfile.gettempdir(), f"verif_c35_profile_{os.getpid()}.json")
+        try:
+            self.profile.encode(path)
+            back = Profile.decode(path)
+            self.hit("profile_roundtrip_equal" if back == self.profile else "profile_roundtrip_differs")
+        except Exception as e:
+            self.hit("profile_roundtrip_raised_" + type(e).__name__)
+        finally:
+            try:
+                os.remove(path)
+            except OSError:
+                pass
 
 
 class Prop(CoreProp):
@@ -99,9 +281,13 @@ class Prop(CoreProp):
     feat = {"n_conflicts": (0, 2), "prio": True, "n_before": (0, 1), "p_nonex": 0.3}
     rule = ("one run = one generated program (as for C01-C09) simulated with the library's profiler_process next to the cycle "
             "driver; for every cycle the recorded CycleProfile is compared with the sampled run/ready/runnable signals, at the end "
-            "analyze_transactions() with the counts over cycles; distinct = (program, arbiter, set of running transactions); "
+            "analyze_transactions() with the counts over cycles, and analyze_transactions(recursive=True) / analyze_methods() / "
+            "analyze_methods(recursive=True) with the counts over the cycles of the profile along every recorded call chain; distinct = (program, arbiter, set of running transactions); "
             "non-trivial = a transaction ran")
-    expected_cov = ["method_caller_recorded", "transaction_recorded_locked", "statistics_compared", "concurrent_transactions"]
+    expected_cov = ["method_caller_recorded", "transaction_recorded_locked", "statistics_compared", "concurrent_transactions",
+                    "recursive_transaction_tree_compared", "recursive_tree_has_callees", "recursive_tree_depth_3",
+                    "recursive_tree_locked_method", "method_statistics_compared", "method_statistics_locked_method",
+                    "recursive_method_tree_compared", "recursive_method_tree_depth_3"]
     real = CoreProp.real + ["transactron.profiler (ProfileData, CycleProfile, Profile.analyze_transactions)",
                             "transactron.testing.profiler.profiler_process"]
 
